@@ -211,7 +211,7 @@ def HpInv (h : LineWriter) : Prop :=
   1 ≤ h.width ∧ h.bufLen = h.width * 200 + 1 ∧ h.bufOffset ≤ 1 + 200 * (h.offset % h.width)
 
 theorem hexpairLoop_good (p : List Nat) (hp : ∀ c ∈ p, c ≤ 199) : ∀ (h : LineWriter) (written : Nat), HpInv h →
-    AwGood h.width (hexpairLoop h written p) := by
+    AwGood h.width (hexpairLoopWith false h written p) := by
   induction p with
   | nil =>
     intro h written hinv
@@ -224,12 +224,12 @@ theorem hexpairLoop_good (p : List Nat) (hp : ∀ c ∈ p, c ≤ 199) : ∀ (h :
     have hc : c ≤ 199 := hp c (by simp)
     have hrest : ∀ c ∈ rest, c ≤ 199 := fun x hx => hp x (by simp [hx])
     have hlt : h.offset % h.width < h.width := Nat.mod_lt _ (by omega)
-    unfold hexpairLoop
+    unfold hexpairLoopWith
     have e1 : ¬ h.bufOffset > h.bufLen := by omega
     have e2 : ¬ h.bufOffset + c ≥ h.bufLen := by omega
     have e3 : ¬ h.bufOffset + c + 1 > h.bufLen := by omega
     have e4 : ¬ h.bufOffset + c + 1 - 1 > h.bufLen := by omega
-    simp only [goSliceTo, goIndex, e1, e2, e3, e4, if_false, Outcome.bind]
+    simp only [Bool.false_and, Bool.false_eq_true, goSliceTo, goIndex, e1, e2, e3, e4, if_false, Outcome.bind]
     split
     · exact ih hrest _ _ ⟨h1, h2, by simp⟩
     · split
@@ -246,5 +246,72 @@ theorem hexpairLoop_good (p : List Nat) (hp : ∀ c ∈ p, c ≤ 199) : ∀ (h :
         refine ih hrest _ _ ⟨h1, h2, ?_⟩
         show h.bufOffset + c + 1 ≤ 1 + 200 * ((h.offset + 1) % h.width)
         rw [hs]; omega
+
+/-! ### hexpairwriter with the grow check: the same local argument as asciiwriter -/
+
+theorem hexpairLoop_grow_good (p : List Nat) : ∀ (h : LineWriter) (written : Nat), AwInv h →
+    AwGood h.width (hexpairLoopWith true h written p) := by
+  induction p with
+  | nil => intro h written hinv; exact ⟨hinv, rfl⟩
+  | cons c rest ih =>
+    intro h written hinv
+    obtain ⟨h1, h2⟩ := hinv
+    unfold hexpairLoopWith
+    simp only [Bool.true_and]
+    by_cases hg : h.bufOffset + c + 1 > h.bufLen
+    · have e1 : ¬ h.bufOffset > h.bufLen := by omega
+      have e2 : ¬ h.bufOffset > (h.bufOffset + c + 1) * 2 := by omega
+      have e3 : ¬ h.bufOffset + c ≥ (h.bufOffset + c + 1) * 2 := by omega
+      have e4 : ¬ h.bufOffset + c + 1 > (h.bufOffset + c + 1) * 2 := by omega
+      have e5 : ¬ h.bufOffset + c + 1 - 1 > (h.bufOffset + c + 1) * 2 := by omega
+      simp only [hg, decide_true, if_true, goSliceTo, goIndex, e1, e2, e3, e4, e5, if_false, Outcome.bind]
+      split
+      · exact ih _ _ ⟨by simp, by simp; omega⟩
+      · split
+        · exact ih _ _ ⟨by simp, by simp; omega⟩
+        · exact ih _ _ ⟨by simp; omega, by simp; omega⟩
+    · have e2 : ¬ h.bufOffset > h.bufLen := by omega
+      have e3 : ¬ h.bufOffset + c ≥ h.bufLen := by omega
+      have e4 : ¬ h.bufOffset + c + 1 > h.bufLen := by omega
+      have e5 : ¬ h.bufOffset + c + 1 - 1 > h.bufLen := by omega
+      simp only [hg, decide_false, Bool.false_eq_true, if_false, goSliceTo, goIndex, e2, e3, e5, Outcome.bind]
+      split
+      · exact ih _ _ ⟨by simp, by simp; omega⟩
+      · split
+        · exact ih _ _ ⟨by simp, by simp; omega⟩
+        · exact ih _ _ ⟨by simp; omega, by simp; omega⟩
+
+theorem hexpairWrite_good (h : LineWriter) (p : List Nat) (hw : 1 ≤ h.width) (hinv : AwInv h) :
+    AwGood h.width (hexpairWrite h p) := by
+  obtain ⟨h1, h2⟩ := hinv
+  unfold hexpairWrite hexpairWriteWith
+  have hw0 : (h.width == 0) = false := by simp; omega
+  simp only [hw0, Bool.false_eq_true, if_false]
+  by_cases hc : max h.offset h.start > h.start
+  · have e : ¬ 0 ≥ h.bufLen := by omega
+    simp only [hc, if_true, goIndex, e, if_false, Outcome.bind]
+    exact hexpairLoop_grow_good p _ _ ⟨by show 1 ≤ h.bufLen; omega, by show 1 ≤ h.bufLen; omega⟩
+  · simp only [hc, if_false, Outcome.bind]
+    exact hexpairLoop_grow_good p _ _ ⟨by show h.bufOffset ≤ h.bufLen; omega, by show 1 ≤ h.bufLen; omega⟩
+
+theorem writeAll_hexpair_good (chunks : List (List Nat)) : ∀ (h : LineWriter) (total : Nat), 1 ≤ h.width → AwInv h →
+    AwGood h.width (writeAll hexpairWrite h total chunks) := by
+  induction chunks with
+  | nil => intro h total _ hinv; exact ⟨hinv, rfl⟩
+  | cons p ps ih =>
+    intro h total hw hinv
+    unfold writeAll
+    have hg := hexpairWrite_good h p hw hinv
+    cases hr : hexpairWrite h p with
+    | ok r =>
+      rw [hr] at hg
+      obtain ⟨hi, hwid⟩ := hg
+      simp only [Outcome.bind]
+      have := ih r.1 (total + r.2) (by rw [hwid]; exact hw) hi
+      rw [hwid] at this
+      exact this
+    | err k => trivial
+    | panic w => rw [hr] at hg; exact hg.elim
+    | resource w => rw [hr] at hg; exact hg.elim
 
 end Proofs.C13
